@@ -152,17 +152,18 @@ def run(prop, tier):
         if not stats.get(need):
             raise lib.MachineryError("driver never observed %s" % need)
 
-    # binding self-test: corrupted observations must be rejected
-    pool = [t for t in traces if t["events"]]
-    selftest = [mutate(t, rng) for t in rng.sample(pool, min(len(pool), 60 if quick else 400))]
     t1 = time.time()
-    val = lib.validate_traces("BaseParsersTrace", "BaseParsersTrace.cfg", [slim(t) for t in traces + selftest])
+    val = lib.validate_traces("BaseParsersTrace", "BaseParsersTrace.cfg", [slim(t) for t in traces])
     print("timing: validation %.1fs (%d events, %d JVMs)" % (time.time() - t1, val["events"], val["jvms"]))
     rejected = dict((r["id"], r) for r in val["rejected"])
-    missed = [t["id"] for t in selftest if t["id"] not in rejected]
-    if missed:
+    # binding self-test: accepted traces with one corrupted observation must be rejected
+    pool = [t for t in traces if t["events"] and t["id"] not in rejected]
+    selftest = [mutate(t, rng) for t in rng.sample(pool, min(len(pool), 60 if quick else 400))]
+    sval = lib.validate_traces("BaseParsersTrace", "BaseParsersTrace.cfg", [slim(t) for t in selftest], jobs=1)
+    caught = set(r["id"] for r in sval["rejected"])
+    missed = [t["id"] for t in selftest if t["id"] not in caught]
+    if missed or not selftest:
         raise lib.MachineryError("binding self-test: %d corrupted traces were accepted, e.g. %s" % (len(missed), missed[:3]))
-    val["traces"] -= len(selftest)
 
     bycase = dict((c["id"], c) for c in cases)
     verdict = lib.Verdict(prop, tier)
